@@ -168,4 +168,13 @@ CONFIG_TOP = dict(
              ),
     ])
 
-TARGETS = [INPUTCHECK, SPAWNER, COMMUNICATION, BACKEND, SHARED_PATH, CACHE_CMD, WORKER_SERIAL, WORKER_PARALLEL, SHARED_RES, CACHE_RES, CONFIG_INTER, CONFIG_FILE, CONFIG_TOP]
+BASE_EXEC = dict(
+    out="BaseExec", file="executorlib/base/executor.py",
+    funcs=[
+        dict(py="ExecutorBase.submit", name="submit_cores_check", allow_star=True,
+             snippet=dict(first="cores = resource_dict.get('cores', None)",
+                          last="if cores is not None and self._max_cores is not None and (cores > self._max_cores):\n    raise ValueError('The specified number of cores is larger than the available number of cores.')",
+                          params=["self", "resource_dict"], returns=["resource_dict"])),
+    ])
+
+TARGETS = [INPUTCHECK, SPAWNER, COMMUNICATION, BACKEND, SHARED_PATH, CACHE_CMD, WORKER_SERIAL, WORKER_PARALLEL, SHARED_RES, CACHE_RES, CONFIG_INTER, CONFIG_FILE, CONFIG_TOP, BASE_EXEC]
